@@ -2,6 +2,7 @@
   C11 — recipients with different label sets cannot share a file.
 -/
 import Proofs.FileLabels
+import Proofs.Labels
 namespace AgeModel
 namespace Props.C11
 open Format Stream
@@ -98,10 +99,29 @@ theorem encrypt_ok_iff_labels_equal (P : Prims) (tape : Bytes) (w0 : Bytes → O
     · intro ⟨st, t, h⟩
       exact ⟨tape.take 16, st, t, by rw [h]⟩
 
-/-- the order of the labels a recipient returns is irrelevant: it is sorted first
-    (stated for two elements; the general permutation invariance of `sortLabels`
-    is `sortLabels_perm` below) -/
-example : sortLabels [[98], [97]] = sortLabels [[97], [98]] := by decide
+/-- **The order of labels is irrelevant.** `sort.Strings` gives the same list for
+    every ordering of the same labels, so two recipients are compatible exactly
+    when their label lists are permutations of each other — for duplicate-free
+    lists: equal as sets. -/
+theorem label_order_irrelevant (l₁ l₂ : List Bytes) : sortLabels l₁ = sortLabels l₂ ↔ l₁.Perm l₂ :=
+  sortLabels_eq_iff_perm l₁ l₂
+
+/-- the order of the RECIPIENTS is irrelevant to compatibility: `customOK` for a
+    permuted recipient list against the same reference labels -/
+theorem recipient_order_irrelevant (fk : Bytes) (l0 : List Bytes) (rs₁ rs₂ : List Recipient) (hp : rs₁.Perm rs₂) :
+    customOK fk l0 rs₁ ↔ customOK fk l0 rs₂ := by
+  induction hp with
+  | nil => exact Iff.rfl
+  | cons x _ ih =>
+    cases x with
+    | custom w l => simp only [customOK]; rw [ih]
+    | x25519 _ => simp [customOK]
+    | scrypt _ _ => simp [customOK]
+    | sshEd _ _ => simp [customOK]
+    | sshRsa _ _ => simp [customOK]
+  | swap x y l =>
+    cases x <;> cases y <;> simp only [customOK] <;> constructor <;> intro h <;> simp_all
+  | trans _ _ ih₁ ih₂ => exact ih₁.trans ih₂
 
 /-- "absent" and "empty" are the same label set -/
 example : sortLabels ((none : Option (List Bytes)).getD []) = sortLabels ((some []).getD []) := rfl
